@@ -453,6 +453,44 @@ def inspect_case(spec, cfg=None, modes=()):
     return {'op': 'inspect', 'spec': U.project_spec(spec), 'out': o}
 
 
+def from_collection_case(t, cfg, kid_cfgs):
+    """treespec_from_collection (and the named constructor of the root's kind) on a collection whose children are treespecs made
+    under the option sets kid_cfgs[i] (so that none_is_leaf / namespace mismatches and merges occur)"""
+    import warnings
+    if t['k'] in ('leaf', 'none', 'sub') or any(c['id'] <= 0 for c in t['ch']) or len({c['id'] for c in t['ch']}) != len(t['ch']):
+        return []
+    ctx = U.Ctx()
+    kids = [U.realise(c, ctx) for c in t['ch']]
+    specs = []
+    for ch, kc, o in zip(t['ch'], kid_cfgs, kids):
+        with U.modes(kc['modes']):
+            specs.append(optree.tree_structure(o, none_is_leaf=kc['nil'], namespace=kc['ns']))
+    coll = U.realise(t, ctx, {c['id']: s for c, s in zip(t['ch'], specs)})
+    kw = dict(none_is_leaf=cfg['nil'], namespace=cfg['ns'])
+    outs = []
+
+    def call(via, fn):
+        with warnings.catch_warnings(record=True) as w:
+            warnings.simplefilter('always')
+            try:
+                with U.modes(cfg['modes']):
+                    r = fn()
+                outs.append({'via': via, 'err': '', 'spec': U.project_spec(r), 'warned': any(issubclass(x.category, UserWarning) for x in w)})
+            except Exception as ex:  # noqa: BLE001
+                outs.append({'via': via, 'err': U.exc_class(ex)})
+    call('treespec_from_collection', lambda: optree.treespec_from_collection(coll, **kw))
+    call('optree.treespec.from_collection', lambda: optree.treespec.from_collection(coll, **kw))
+    k = t['k']
+    named = {'tuple': lambda: optree.treespec_tuple(coll, **kw), 'list': lambda: optree.treespec_list(coll, **kw),
+             'dict': lambda: optree.treespec_dict(coll, **kw), 'odict': lambda: optree.treespec_ordereddict(coll, **kw),
+             'ddict': lambda: optree.treespec_defaultdict(coll.default_factory, coll, **kw),
+             'deque': lambda: optree.treespec_deque(coll, maxlen=coll.maxlen, **kw),
+             'nt': lambda: optree.treespec_namedtuple(coll, **kw), 'ss': lambda: optree.treespec_structseq(coll, **kw)}.get(k)
+    if named:
+        call('named-constructor', named)
+    return [{'op': 'fromcoll', 't': t, 'cfg': cfg, 'kidspecs': [U.project_spec(s) for s in specs], 'outs': outs}]
+
+
 def work(line):
     item = json.loads(line)
     fams = item['fams']
@@ -472,6 +510,15 @@ def work(line):
             continue
         if 'flatten' in fams:
             out.append(flatten_family(t, cfg, ctx, obj, item.get('eps'), 'acclaws' in fams))
+        if 'fromcoll' in fams:
+            n = len(t['ch'])
+            import random as _r
+            rr = _r.Random(hash(json.dumps(t)) & 0xffff)
+            same = [cfg] * n
+            mixed = [rr.choice(item['kidcfgs']) for _ in range(n)]
+            out.extend(from_collection_case(t, cfg, same))
+            out.extend(from_collection_case(t, cfg, mixed))
+            continue
         if 'c03extra' in fams:
             out.extend(c03_extra(t, cfg, ctx, obj))
         if 'c02laws' in fams:
